@@ -393,7 +393,7 @@ loop (the order of the two tests, the index arithmetic, which slice a new node j
 generated text and breaks this theorem. -/
 theorem c12_gen_WithRoot_eq (keys : List Nat) (N : Nat) (root : Option Nat) :
     (Gen.C12Nary.Roster_GenerateNaryTreeWithRoot (NaryGen.roster keys) (Int.ofNat N)
-        (root.map fun k => { ID := k }) []).map (·.1) = NaryGen.ofOutcome (genNaryKeys N keys root) := by
+        (root.map fun k => { Public := k }) []).map (·.1) = NaryGen.ofOutcome (genNaryKeys N keys root) := by
   cases root with
   | none =>
     by_cases hne : keys = []
@@ -402,7 +402,7 @@ theorem c12_gen_WithRoot_eq (keys : List Nat) (N : Nat) (root : Option Nat) :
   | some k => simpa [genNaryKeys] using NaryGen.withRoot_some keys N k
 
 /-- non-vacuity: a binary tree over seven servers rooted at the third, as generated -/
-example : (Gen.C12Nary.Roster_GenerateNaryTreeWithRoot (NaryGen.roster [10, 11, 12, 13, 14, 15, 16]) 2 (some { ID := 12 }) []).map (·.1) =
+example : (Gen.C12Nary.Roster_GenerateNaryTreeWithRoot (NaryGen.roster [10, 11, 12, 13, 14, 15, 16]) 2 (some { Public := 12 }) []).map (·.1) =
     some (.tree [(2, 0), (3, 0), (4, 0), (5, 1), (6, 1), (0, 2), (1, 2)]) := by decide
 
 /-- the translation panics on `N = 0` with two servers (`parents[0]` of an empty slice), as the code does -/
